@@ -81,7 +81,10 @@ def run(prog, R):
                 comp[k] = (parts, r[1].endswith("at_composite3"), nfirst)
     eatn = {}
     if ea:
-        for p in SymExec(prog, ea, max_paths=500).paths():
+        # module-private helpers of parser.rs other than the modelled operations are looked into (the table of
+        # raw-token counts may live in a helper)
+        PRIMS_ = ("Parser::do_bump", "Parser::at", "Parser::nth_at", "Parser::nth", "Parser::current", "Parser::at_composite2", "Parser::at_composite3", "Parser::push_event")
+        for p in SymExec(prog, ea, max_paths=2000, inline=lambda c: c.startswith("oq3_parser::parser::") and not c.endswith(PRIMS_) and prog.body(c) is not None and str(prog.body(c).vis).startswith("in ")).paths():
             if "__diverged__" in p.env:
                 continue
             db = [c for c in p.calls if c[0] == PP + "Parser::do_bump"]
